@@ -211,7 +211,7 @@ impl InferShapes for Where {
                 .zip(xs.zip(ys))
                 .map(|(cond, (x, y))| {
                     let cond_bool = match cond {
-                        SymExpr::Value(v) => Some(*v == 1),
+                        SymExpr::Value(v) => Some(*v != 0),
                         SymExpr::Var(_)
                         | SymExpr::Neg(_)
                         | SymExpr::Add(..)
